@@ -73,6 +73,12 @@ CHECKS = {
         text="Bounded-exhaustive: every pattern of length <=3 (quick) / <=4 (thorough) over {a b * ? [ ] ! \\ - .} against every subject of length <=3/<=4 over a 10-symbol alphabet, for -name -iname -path -ipath; structured random patterns (regex metacharacters as literals, escapes, bracket expressions with negation, leading ], ranges, classes, '[' members, trailing -, stray [ ] !, lone trailing backslash) with subjects sampled from the pattern and mutated (prefix, suffix, extension, substitution, case) for all six spellings; -lname/-ilname on real symbolic links; -name/-iname through the find binary on real files. Quick ~5M judged pairs.",
         note="Judged only where glibc(C.UTF-8) = glibc(C) = lib/posixfn.py; out of domain (counted): backslash or mid-list '-' inside brackets, '[^', non-alphanumeric ranges, collating/equivalence syntax, [:upper:]/[:lower:] under -i forms, classes against non-ASCII characters, subjects '.'/'..' for -name.",
         ref="DESIGN.md section 4 C12"),
+    "C17": dict(
+        technique="runtime monitoring: differential oracle (Python re.fullmatch on the same regex AST) over executions of the matcher objects built by the real parser (in-process) and of the find binary on a real tree; metamorphic twin with every alternation reversed",
+        level="exploration",
+        text="Random regex ASTs (literals incl. every metacharacter, '.', bracket sets with ranges and negation, groups, alternation, * + ? and intervals) are rendered into emacs, posix-basic, ed, sed, posix-extended and grep syntax using only the operators each syntax defines, placed under 8 -regextype scoping shapes (plain, default, inside parentheses, after a closed parenthesis, type inside parentheses, two types in one expression, overridden, negated), and applied to paths sampled from the AST and mutated (proper prefixes, extensions, substitutions, case changes). Quick ~24k ASTs / ~1.5M judged (pattern, path) pairs plus ~1000 binary runs.",
+        note="Known finding first-match-shorter-than-path (known_findings.json) is matched by exact mechanism signature; pairs on which Oniguruma gives up (diagnosed on stderr) are out of domain; no back-references, anchors or classes; paths without newline.",
+        ref="DESIGN.md section 4 C17"),
     "C19": dict(
         technique="runtime monitoring: scripted recorder outcomes, exit status and number of invocations started vs the documented function; bounded-exhaustive over outcome classes",
         level="exploration",
